@@ -73,7 +73,7 @@ def corpus_defs(tier):
         fr(3 if q else 4, 'StepsB', 'CtsB', start=9000),
         fr(5 if q else 7, 'StepsC', 'CtsA', start=3000),
     ] + ([] if q else [fr(4, 'StepsA', 'CtsB', start=7)]),
-        rand=[dict(gen='frag', n=200 if q else 4000, rel='filtered', facets=None)])
+        rand=[dict(gen='frag', n=200 if q else 4000, rel='filtered', facets=None), dict(gen='fragreject', n=0, rel='filtered', facets=None)])
     # --- sink: every write-call index x fault kind (and every byte offset as a short-write cut) ---
     d['sink'] = dict(trace='TraceMuxide', inst_div=100000, mc=[
         _mc({'FLen': 6, 'MaxBuf': 4, 'MaxIntr': 2, 'SDev': '{}'}, module='MuxideSink', spec='SSpec',
